@@ -539,6 +539,10 @@ impl Vm {
 
     fn run(&mut self) -> Result<Value, Error> {
         loop {
+            #[cfg(feature = "verif_hooks")]
+            if verif::dispatch_monitor_enabled() {
+                self.verif_on_dispatch();
+            }
             if cfg!(feature = "debug_trace") {
                 println!("          {}", self.active_fiber().stack);
                 let offset = self.active_chunk.code_offset(self.ip);
@@ -1978,6 +1982,174 @@ impl Vm {
 /// Verification hooks (feature `verif_hooks`): read-only probes of interpreter state.
 #[cfg(feature = "verif_hooks")]
 pub mod verif {
+    use std::cell::{Cell, RefCell};
+    use std::collections::HashMap;
+
+    use crate::chunk::{Chunk, OpCode};
+    use crate::value::Value;
+
+    thread_local! {
+        static DISPATCH_ON: Cell<bool> = Cell::new(false);
+        static CHUNKS: RefCell<HashMap<usize, ChunkInfo>> = RefCell::new(HashMap::new());
+        static STATS: RefCell<DispatchStats> = RefCell::new(DispatchStats::default());
+    }
+
+    #[derive(Clone, Debug, Default)]
+    pub struct DispatchStats {
+        pub dispatched: u64,
+        pub chunks_seen: u64,
+        pub instructions_in_seen_chunks: u64,
+        pub distinct_offsets_executed: u64,
+        pub handler_targets: u64,
+    }
+
+    pub(super) struct ChunkInfo {
+        pub(super) code_len: usize,
+        /// per code offset: 0 = not an instruction boundary, 1 = boundary
+        pub(super) boundary: Vec<u8>,
+        /// per code offset: operand-stack height first seen there (-1 = not yet executed)
+        pub(super) height: Vec<i32>,
+        /// offsets that are handler entry points (catch / finally targets)
+        pub(super) handler_target: Vec<u8>,
+        pub(super) tainted_by_finally: bool,
+    }
+
+    /// Operand bytes each opcode handler in vm.rs reads after the opcode (Closure reads two more per
+    /// captured variable). Deliberately not OpCode::arg_sizes, which is a disassembler table.
+    pub(super) fn operand_len(op: u8) -> Option<usize> {
+        macro_rules! is {
+            ($($name:ident),*) => { false $(|| op == OpCode::$name as u8)* };
+        }
+        if is!(Constant, GetGlobal, DefineGlobal, SetGlobal, GetProperty, SetProperty, GetSuper, Jump,
+               JumpIfFalse, JumpIfStopIter, Loop, Closure, DeclareClass, Method, StaticMethod, StartImport) {
+            Some(2)
+        } else if is!(GetLocal, SetLocal, GetUpvalue, SetUpvalue, BuildHashMap, BuildString, BuildTuple,
+                      BuildVec, Call, Construct) {
+            Some(1)
+        } else if is!(Invoke, SuperInvoke) {
+            Some(3)
+        } else if is!(PushExcHandler) {
+            Some(4)
+        } else if op <= OpCode::FinishImport as u8 {
+            Some(0)
+        } else {
+            None
+        }
+    }
+
+    fn short_at(code: &[u8], at: usize) -> usize {
+        u16::from_ne_bytes([code[at], code[at + 1]]) as usize
+    }
+
+    pub(super) fn analyse(chunk: &Chunk) -> (ChunkInfo, Vec<String>, u64) {
+        let code = &chunk.code;
+        let n = code.len();
+        let mut info = ChunkInfo {
+            code_len: n,
+            boundary: vec![0; n + 1],
+            height: vec![-1; n + 1],
+            handler_target: vec![0; n + 1],
+            tainted_by_finally: false,
+        };
+        let mut problems = Vec::new();
+        if chunk.lines.len() != n {
+            problems.push(format!("line table has {} entries for {} code bytes", chunk.lines.len(), n));
+        }
+        let mut at = 0;
+        let mut count = 0;
+        while at < n {
+            info.boundary[at] = 1;
+            count += 1;
+            let op = code[at];
+            let len = match operand_len(op) {
+                Some(len) => len,
+                None => {
+                    problems.push(format!("unknown opcode {} at {}", op, at));
+                    break;
+                }
+            };
+            if at + 1 + len > n {
+                problems.push(format!("operands of opcode {} at {} run past the end", op, at));
+                break;
+            }
+            let mut next = at + 1 + len;
+            if op == OpCode::Closure as u8 {
+                let index = short_at(code, at + 1);
+                if let Some(Value::ObjFunction(f)) = chunk.constants.get(index) {
+                    next += 2 * f.upvalue_count;
+                }
+            }
+            if op == OpCode::PushExcHandler as u8 {
+                let try_size = short_at(code, at + 1);
+                let catch_size = short_at(code, at + 3);
+                let catch_at = at + 5 + try_size;
+                let finally_at = catch_at + catch_size;
+                if catch_at <= n {
+                    info.handler_target[catch_at] |= 1;
+                }
+                if finally_at <= n {
+                    info.handler_target[finally_at] |= if catch_size == 0 { 3 } else { 2 };
+                }
+            }
+            at = next;
+        }
+        (info, problems, count)
+    }
+
+    pub fn set_dispatch_monitor(on: bool) {
+        DISPATCH_ON.with(|d| d.set(on));
+        if !on {
+            CHUNKS.with(|c| c.borrow_mut().clear());
+        }
+    }
+
+    pub fn dispatch_monitor_enabled() -> bool {
+        DISPATCH_ON.with(|d| d.get())
+    }
+
+    pub fn take_dispatch_stats() -> DispatchStats {
+        STATS.with(|s| std::mem::take(&mut *s.borrow_mut()))
+    }
+
+    pub(super) fn with_chunk<R>(chunk: &Chunk, f: impl FnOnce(&mut ChunkInfo) -> R) -> R {
+        let key = chunk as *const Chunk as usize;
+        CHUNKS.with(|c| {
+            let mut map = c.borrow_mut();
+            let stale = map.get(&key).map(|i| i.code_len != chunk.code.len()).unwrap_or(false);
+            if stale {
+                map.remove(&key);
+            }
+            if !map.contains_key(&key) {
+                let (info, problems, count) = analyse(chunk);
+                for p in problems {
+                    crate::memory::verif::record_event(
+                        "ChunkStructure",
+                        format!("ChunkStructure({})", p.split(' ').take(3).collect::<Vec<_>>().join("-")),
+                        p,
+                    );
+                }
+                STATS.with(|s| {
+                    let mut s = s.borrow_mut();
+                    s.chunks_seen += 1;
+                    s.instructions_in_seen_chunks += count;
+                    s.handler_targets += info.handler_target.iter().filter(|&&t| t != 0).count() as u64;
+                });
+                map.insert(key, info);
+            }
+            f(map.get_mut(&key).unwrap())
+        })
+    }
+
+    pub(super) fn bump_dispatched(first_time: bool) {
+        STATS.with(|s| {
+            let mut s = s.borrow_mut();
+            s.dispatched += 1;
+            if first_time {
+                s.distinct_offsets_executed += 1;
+            }
+        });
+    }
+
     #[derive(Clone, Debug, Default, PartialEq)]
     pub struct VmState {
         pub handling_exception: bool,
@@ -1997,6 +2169,241 @@ pub mod verif {
 
 #[cfg(feature = "verif_hooks")]
 impl Vm {
+    /// The dispatch monitor (C04, C10): checks the operand-level contract of the instruction about
+    /// to be executed against the live interpreter state.
+    fn verif_on_dispatch(&self) {
+        use crate::memory::verif::record_event;
+        let chunk: &Chunk = &self.active_chunk;
+        let code = &chunk.code;
+        let offset = (self.ip as usize).wrapping_sub(code.as_ptr() as usize);
+        let fiber_ok = match self.fiber.as_ref() {
+            Some(fiber) => (**fiber).as_ptr() as usize == self.unsafe_fiber as usize,
+            None => false,
+        };
+        if !fiber_ok {
+            record_event(
+                "Dispatch",
+                "Dispatch(RawFiberPointerIncoherent)".to_owned(),
+                "unsafe_fiber does not denote the rooted active fiber".to_owned(),
+            );
+            return;
+        }
+        if offset >= code.len() {
+            record_event(
+                "Dispatch",
+                "Dispatch(FetchOutsideCode)".to_owned(),
+                format!("ip at offset {} of a chunk of {} bytes", offset as isize, code.len()),
+            );
+            return;
+        }
+        let (stack_len, slot_base, upvalues, frame_chunk_ok) = {
+            let fiber = self.fiber.as_ref().unwrap().borrow();
+            let frame = match fiber.current_frame() {
+                Some(frame) => frame,
+                None => return,
+            };
+            let frame_chunk: &Chunk = &frame.closure.function.chunk;
+            let upvalue_count = frame.closure.upvalues.borrow().len();
+            let same_chunk = frame_chunk as *const Chunk == chunk as *const Chunk;
+            (fiber.stack.len(), frame.slot_base, upvalue_count, same_chunk)
+        };
+        if !frame_chunk_ok {
+            record_event(
+                "Dispatch",
+                "Dispatch(ActiveChunkNotFrameChunk)".to_owned(),
+                "the active chunk is not the chunk of the running frame's function".to_owned(),
+            );
+        }
+        let height = stack_len as i64 - slot_base as i64;
+        let op = code[offset];
+        let mut problems: Vec<(String, String)> = Vec::new();
+        verif::with_chunk(chunk, |info| {
+            let first_time = info.height[offset] < 0;
+            verif::bump_dispatched(first_time);
+            if info.boundary[offset] == 0 {
+                problems.push((
+                    "Dispatch(NotAnInstructionBoundary)".to_owned(),
+                    format!("dispatch at offset {} which is inside another instruction", offset),
+                ));
+                return;
+            }
+            if first_time {
+                info.height[offset] = height as i32;
+            } else if info.height[offset] as i64 != height {
+                let target = info.handler_target[offset];
+                let kind = if target == 3 {
+                    info.tainted_by_finally = true;
+                    "finally-entry"
+                } else if info.tainted_by_finally {
+                    "finally-region"
+                } else if target != 0 {
+                    "handler-entry"
+                } else {
+                    "plain"
+                };
+                problems.push((
+                    format!("Dispatch(HeightMismatch@{})", kind),
+                    format!(
+                        "offset {} (opcode {}) reached with height {} after height {}",
+                        offset, op, height, info.height[offset]
+                    ),
+                ));
+            }
+        });
+        let len = match verif::operand_len(op) {
+            Some(len) => len,
+            None => {
+                record_event(
+                    "Dispatch",
+                    "Dispatch(UnknownOpcode)".to_owned(),
+                    format!("opcode {} at {}", op, offset),
+                );
+                return;
+            }
+        };
+        macro_rules! is {
+            ($($name:ident),*) => { false $(|| op == OpCode::$name as u8)* };
+        }
+        let operand = |at: usize, width: usize| -> usize {
+            if width == 1 {
+                code[at] as usize
+            } else {
+                u16::from_ne_bytes([code[at], code[at + 1]]) as usize
+            }
+        };
+        if offset + 1 + len > code.len() {
+            problems.push((
+                "Dispatch(OperandsOutsideCode)".to_owned(),
+                format!("opcode {} at {} needs {} operand bytes", op, offset, len),
+            ));
+        } else {
+            if is!(Constant, GetGlobal, DefineGlobal, SetGlobal, GetProperty, SetProperty, GetSuper, Closure,
+                   DeclareClass, Method, StaticMethod, StartImport, Invoke, SuperInvoke) {
+                let index = operand(offset + 1, 2);
+                match chunk.constants.get(index) {
+                    None => problems.push((
+                        "Dispatch(ConstantOutsidePool)".to_owned(),
+                        format!("opcode {} at {} names constant {} of {}", op, offset, index, chunk.constants.len()),
+                    )),
+                    Some(value) => {
+                        let wants_function = op == OpCode::Closure as u8;
+                        let wants_string = !wants_function && op != OpCode::Constant as u8;
+                        if wants_string && value.try_as_obj_string().is_none() {
+                            problems.push((
+                                "Dispatch(ConstantKind)".to_owned(),
+                                format!("opcode {} at {} needs a string constant", op, offset),
+                            ));
+                        }
+                        if wants_function {
+                            match value {
+                                Value::ObjFunction(f) => {
+                                    let base = offset + 3;
+                                    if base + 2 * f.upvalue_count > code.len() {
+                                        problems.push((
+                                            "Dispatch(OperandsOutsideCode)".to_owned(),
+                                            format!("capture descriptors of Closure at {} run past the end", offset),
+                                        ));
+                                    } else {
+                                        for k in 0..f.upvalue_count {
+                                            let is_local = code[base + 2 * k];
+                                            let index = code[base + 2 * k + 1] as i64;
+                                            if is_local > 1
+                                                || (is_local == 1 && index >= height)
+                                                || (is_local == 0 && index >= upvalues as i64)
+                                            {
+                                                problems.push((
+                                                    "Dispatch(CaptureDescriptor)".to_owned(),
+                                                    format!(
+                                                        "Closure at {}: capture {} (is_local {}, index {}) with height {} and {} captures",
+                                                        offset, k, is_local, index, height, upvalues
+                                                    ),
+                                                ));
+                                            }
+                                        }
+                                    }
+                                }
+                                _ => problems.push((
+                                    "Dispatch(ConstantKind)".to_owned(),
+                                    format!("Closure at {} needs a function constant", offset),
+                                )),
+                            }
+                        }
+                    }
+                }
+            }
+            if is!(GetLocal, SetLocal) {
+                let slot = operand(offset + 1, 1) as i64;
+                if slot >= height {
+                    problems.push((
+                        "Dispatch(LocalSlotOutsideFrame)".to_owned(),
+                        format!("opcode {} at {} names local {} with height {}", op, offset, slot, height),
+                    ));
+                }
+            }
+            if is!(GetUpvalue, SetUpvalue) {
+                let index = operand(offset + 1, 1);
+                if index >= upvalues {
+                    problems.push((
+                        "Dispatch(CaptureIndex)".to_owned(),
+                        format!("opcode {} at {} names capture {} of {}", op, offset, index, upvalues),
+                    ));
+                }
+            }
+            let needs: i64 = if is!(Call, Construct) {
+                operand(offset + 1, 1) as i64 + 1
+            } else if is!(Invoke) {
+                operand(offset + 3, 1) as i64 + 1
+            } else if is!(SuperInvoke) {
+                operand(offset + 3, 1) as i64 + 2
+            } else if is!(BuildVec, BuildTuple, BuildString) {
+                operand(offset + 1, 1) as i64
+            } else if is!(BuildHashMap) {
+                2 * operand(offset + 1, 1) as i64
+            } else if is!(Pop, CopyTop, SetLocal, DefineGlobal, SetGlobal, SetUpvalue, GetProperty, GetClass,
+                          LogicalNot, BitwiseNot, Negate, FormatString, JumpIfFalse, JumpIfStopIter, Throw,
+                          Return, CloseUpvalue, IterNext, GetSuper, JumpFinally, Method, StaticMethod,
+                          DefineClass, FinishImport) {
+                1
+            } else if is!(SetProperty, Equal, Greater, Less, Add, Subtract, Multiply, Divide, BitwiseAnd,
+                          BitwiseOr, BitwiseXor, Modulo, BitShiftLeft, BitShiftRight, GetItem, BuildRange,
+                          Inherit) {
+                2
+            } else if is!(SetItem) {
+                3
+            } else {
+                0
+            };
+            // slot 0 of a frame (callee / receiver) is not an operand
+            if needs > height {
+                problems.push((
+                    "Dispatch(OperandStackUnderflow)".to_owned(),
+                    format!("opcode {} at {} needs {} values with height {}", op, offset, needs, height),
+                ));
+            }
+            let target: Option<i64> = if is!(Jump, JumpIfFalse, JumpIfStopIter) {
+                Some(offset as i64 + 3 + operand(offset + 1, 2) as i64)
+            } else if is!(Loop) {
+                Some(offset as i64 + 3 - operand(offset + 1, 2) as i64)
+            } else {
+                None
+            };
+            if let Some(target) = target {
+                let ok = target >= 0
+                    && (target as usize) < code.len()
+                    && verif::with_chunk(chunk, |info| info.boundary[target as usize] == 1);
+                if !ok {
+                    problems.push((
+                        "Dispatch(JumpTarget)".to_owned(),
+                        format!("opcode {} at {} jumps to {} in a chunk of {} bytes", op, offset, target, code.len()),
+                    ));
+                }
+            }
+        }
+        for (signature, detail) in problems {
+            record_event("Dispatch", signature, detail);
+        }
+    }
+
     pub fn verif_state(&self) -> verif::VmState {
         let mut state = verif::VmState {
             handling_exception: self.handling_exception,
